@@ -9,6 +9,45 @@ type sx struct {
 	atom string
 	list []*sx
 	isL  bool
+	n    int // cached text length (lists only; 0 = not computed)
+}
+
+// length of the printed form.
+func (n *sx) length() int {
+	if !n.isL {
+		return len(n.atom)
+	}
+	if n.n != 0 {
+		return n.n
+	}
+	l := 2
+	for i, c := range n.list {
+		if i > 0 {
+			l++
+		}
+		l += c.length()
+	}
+	n.n = l
+	return l
+}
+
+// mentions reports whether atom q occurs in n (cached per call through the seen map).
+func (n *sx) mentions(q string, memo map[*sx]bool) bool {
+	if !n.isL {
+		return n.atom == q
+	}
+	if v, ok := memo[n]; ok {
+		return v
+	}
+	r := false
+	for _, c := range n.list {
+		if c.mentions(q, memo) {
+			r = true
+			break
+		}
+	}
+	memo[n] = r
+	return r
 }
 
 func parseSx(s string) *sx {
@@ -89,6 +128,7 @@ func (n *sx) String() string {
 		return n.atom
 	}
 	var b strings.Builder
+	b.Grow(n.length())
 	n.write(&b)
 	return b.String()
 }
@@ -98,6 +138,7 @@ func (n *sx) write(b *strings.Builder) {
 		b.WriteString(n.atom)
 		return
 	}
+
 	b.WriteByte('(')
 	for i, c := range n.list {
 		if i > 0 {
@@ -181,7 +222,7 @@ func indexContexts(n *sx, q string, seen map[string]*sx) {
 	case h == "eref" && len(n.list) == 3:
 		idx = n.list[2]
 	}
-	if idx != nil && idx.isL && idx.contains(q) {
+	if idx != nil && idx.isL && idx.length() < 300 && idx.contains(q) {
 		seen[idx.String()] = idx
 	}
 	for _, c := range n.list {
@@ -191,8 +232,15 @@ func indexContexts(n *sx, q string, seen map[string]*sx) {
 
 // substSx replaces subtrees whose text equals from by to, and afterwards atoms q by qrepl.
 func substSx(n *sx, from string, to string, q, qrepl string) *sx {
-	if n.String() == from {
+	return substSxM(n, from, to, q, qrepl, map[*sx]bool{})
+}
+
+func substSxM(n *sx, from string, to string, q, qrepl string, memo map[*sx]bool) *sx {
+	if n.isL && n.length() == len(from) && n.String() == from {
 		return &sx{atom: to}
+	}
+	if n.isL && !n.mentions(q, memo) {
+		return n // nothing to rewrite below (from contains q as well)
 	}
 	if !n.isL {
 		if n.atom == q {
@@ -202,7 +250,7 @@ func substSx(n *sx, from string, to string, q, qrepl string) *sx {
 	}
 	out := &sx{isL: true}
 	for _, c := range n.list {
-		out.list = append(out.list, substSx(c, from, to, q, qrepl))
+		out.list = append(out.list, substSxM(c, from, to, q, qrepl, memo))
 	}
 	return out
 }
